@@ -312,3 +312,38 @@ func genWeirdPairs(r *rand.Rand, i int) J {
 }
 
 func init() { generators["weirdpairs"] = genWeirdPairs }
+
+// "scaling": every filter applied to something big - a range of 100000 integers, bound arrays of 100000 integers
+// (distinct / all equal / strings), a text of 300 kB - alone and in two-filter chains.  The render has to come back
+// within the deadline: time is proportional to what the template spells out, not to its square.
+func genScaling(r *rand.Rand, i int) J {
+	recvs := []string{"(1..100000)", "bigints", "bigsame", "bigstrs", "bigtext", "bigmaps"}
+	filters := fuzzFilterNames
+	n := len(recvs) * len(filters)
+	var src string
+	switch {
+	case i < n:
+		src = fmt.Sprintf("{{ %s | %s | size }}", recvs[i%len(recvs)], filters[i/len(recvs)])
+	case i < 2*n:
+		j := i - n
+		src = fmt.Sprintf("{{ %s | %s: 'k' | size }}", recvs[j%len(recvs)], filters[j/len(recvs)])
+	default:
+		j := i - 2*n
+		src = fmt.Sprintf("{{ %s | %s | %s | size }}", recvs[j%len(recvs)], filters[(j/len(recvs))%len(filters)], filters[(j/7)%len(filters)])
+	}
+	return J{"kind": "render", "src": bs(src), "env": []any{}, "bigenv": true, "nospec": true, "tm": "TraceC01"}
+}
+
+func bigEnv() map[string]any {
+	const n = 100000
+	ints, same, strs, maps := make([]any, n), make([]any, n), make([]any, n), make([]any, n)
+	for k := 0; k < n; k++ {
+		ints[k], same[k], strs[k] = (k*7919)%n, 7, fmt.Sprintf("s%d", (k*7919)%n)
+		maps[k] = map[string]any{"k": (k * 7919) % n}
+	}
+	// (maps and arrays have no hash: telling 100000 of them apart pairwise is not what the statement excludes)
+	maps = maps[:3000]
+	return map[string]any{"bigints": ints, "bigsame": same, "bigstrs": strs, "bigmaps": maps, "bigtext": strings.Repeat("lorem ipsum <b>dolor</b> & ", 12000)}
+}
+
+func init() { generators["scaling"] = genScaling }
